@@ -16,7 +16,7 @@ LEVEL_NOTE = ("Trusted: the ~300-line ASGI stand-in for starlette and the stream
               "client and the real server code; virtual clock. Consecutive drops beyond max_reconnect_attempts are expected to end in ConnectionError.")
 DESIGN_REF = "§5 C17"
 RULE = "case = (event payloads, cursor, cut offsets); distinct = hash of the case; non-trivial = >=1 drop actually happened"
-REQUIRED_REACH = ["scenario", "drop_injected", "reconnected_ok", "cursor_mid_log", "unicode_payload", "cut_inside_data", "cut_inside_id", "over_limit_case", "slow_store"]
+REQUIRED_REACH = ["scenario", "drop_injected", "reconnected_ok", "cursor_mid_log", "unicode_payload", "cut_inside_data", "cut_inside_id", "over_limit_case", "slow_store", "drop_as_incomplete_chunked_body"]
 ASSUMPTIONS = ["drops are cuts of the response body (httpx.ReadError); request-phase connect errors are not injected"]
 
 TEXTS = ["ok", "plain text", "ünï¢ödé ✓", "tab\tand \"quotes\"", "x" * 300, "line\\nescaped", "emoji 😀", "ls\u2028sep", "ps\u2029sep", "nel\u0085sep", "vt\x0bff\x0c", "a b", "c d", "e\u0085f", ""]
@@ -43,7 +43,7 @@ def gen_case(seed):
         cuts[pos:pos] = [-1] * k
     return {"seed": seed, "texts": texts, "gaps": gaps, "cursor": cursor, "cuts": cuts, "max_reconnect": rnd.choice([3, 3, 1, 5]),
             "store": rnd.choice(["memory", "sqlite"]), "late_connect": rnd.choice([0, 0, 2, 50]),
-            "store_latency": rnd.choice([None, None, None, 0.02, 0.1])}
+            "store_latency": rnd.choice([None, None, None, 0.02, 0.1]), "drop_kinds": [rnd.choice(["reset", "reset", "fin"]) for _ in range(4)]}
 
 
 def _max_consecutive_refusals(cuts):
@@ -101,6 +101,9 @@ def run_one(case, acc):
         if case["late_connect"]:
             await asyncio.sleep(case["late_connect"])
         dp = DropPlan(case["cuts"])
+        dp.kinds = case.get("drop_kinds")
+        if "fin" in (case.get("drop_kinds") or []) and any(c is not None and c >= 0 for c in case["cuts"]):
+            acc.hit("drop_as_incomplete_chunked_body")
         http = httpx.AsyncClient(transport=ASGIStreamTransport(server.app, dp), base_url="http://testserver")
         client = WorkflowClient(httpx_client=http)
         stream = client.get_workflow_events("h1", after_sequence=case["cursor"], max_reconnect_attempts=case["max_reconnect"])
